@@ -1326,7 +1326,9 @@ func Run(c *hx.Ctx) error {
 	if v := c.Arg("only", ""); v != "" {
 		only, _ = strconv.Atoi(v)
 	}
-	master := hx.NewRng(c.Seed)
+	// hx.NewRng(k+1) is the stream of hx.NewRng(k) shifted by one step; take one mixed output as
+	// the master seed so that different -seed values give unrelated sequences
+	master := hx.NewRng(hx.NewRng(c.Seed).U64() ^ 0xC17C17)
 	for id := 0; id < n; id++ {
 		r := master.Fork()
 		x := r.Intn(100)
